@@ -116,6 +116,18 @@ class Ctx:
         self._bin = bindir
         return bindir
 
+    def harness_for(self, goarch, cmd):
+        """One harness command built for another Linux target the host can execute (386 on an x86_64 kernel); None if it does not build."""
+        bindir = self.harness()
+        src = os.path.dirname(bindir)
+        out = os.path.join(src, "bin_" + goarch, cmd)
+        if os.path.exists(out):
+            return out
+        rc, o, e = self.run(["go", "build", "-tags", "verif", "-o", out, "./cmd/" + cmd], cwd=src, env={"GOARCH": goarch, "CGO_ENABLED": "0"}, timeout=900)
+        if rc != 0:
+            raise Machinery("harness command %s does not build for linux/%s against %s:\n%s" % (cmd, goarch, REPO, e[-3000:]))
+        return out
+
     def gobuild(self, pkgdir, out, tags="verif", extra=None, env=None):
         cmd = ["go", "build", "-tags", tags, "-o", out] + (extra or []) + ["."]
         rc, o, e = self.run(cmd, cwd=pkgdir, timeout=900, env=env)
